@@ -29,6 +29,7 @@ OPS = {
     'C18': ['key', 'lookup', 'management'],
     'C08': ['call', 'clear', 'archive', 'management'],
     'C12': ['call', 'key', 'rounding'],
+    'C20': ['reduce'],
 }
 
 
@@ -196,6 +197,8 @@ def _work(args):
                 obs += W.obligations_rounding(case)
             if 'new' in ops:
                 obs += W.obligations_new(case)
+            if 'reduce' in ops:
+                obs += [o for o in W.obligations_reduce(case) if not o.info.get('unsupported')]
         except Unsupported as e:
             out['unsupported'] = str(e)
             out['bounded'] = _bounded_fallback(modname, clsname, prop, tier)
@@ -619,11 +622,11 @@ def arch_level_a(prop):
             'unsupported': unsupported}
 
 
-def rounding_level_a():
+def rounding_level_a(which='obligations'):
     """contracts/rounding_contracts.py: the real simple_round under contract"""
     from contracts import rounding_contracts as RC
     from pyvc import driver
-    obs, sha = RC.obligations()
+    obs, sha = getattr(RC, which)()
     uns = ['%s: %s' % (o.func, o.info['unsupported']) for o in obs if o.info.get('unsupported')]
     obs = [o for o in obs if not o.info.get('unsupported')]
     recs, nq = driver.discharge_grouped(obs)
